@@ -178,6 +178,9 @@ pub fn inputs_of_base(plan: &Plan, b: u64, corpus: &[(String, Vec<u8>)]) -> Vec<
                 if hostile::MODEL_OPS[op] == "many_links_to_big_tilemap" && (r > 0 || b % 16 != 7 || plan.mode == Mode::Walk || plan.mode == Mode::Digest) {
                     continue; // a 4-16 M tile map: one base in sixteen, loading only (memory / totality)
                 }
+                if hostile::MODEL_OPS[op] == "tileset_million_tiny_tiles" && (r > 0 || b % 16 != 9 || plan.mode == Mode::Walk || plan.mode == Mode::Digest) {
+                    continue; // millions of tiles: one base in sixteen, loading only (memory / totality)
+                }
                 if hostile::MODEL_OPS[op] == "palette_colliding_keys" && (r > 0 || b != 5 || plan.mode == Mode::Mem) {
                     continue; // a 16-megapixel cel: once per run
                 }
